@@ -154,7 +154,7 @@ def end_to_end(ck, rng, thorough):
     import pelbuild
     nasty = ['\u2028', '\u2029', '\x85', '\x1c', '\r', '\x0b', '\x0c', '":', '\\', '"', ':', '{', 'é', '😀', '\x7f', 'x": y', '\t', '\\"', '  ']
     # user-data parser modules of creator x: one fine, one whose call raises, one that returns nothing (error notes must not reach stdout)
-    env = apel.PluginEnv(allow=True, ud={'x1111': ('echo',), 'x2222': ('raises', 'boom "quoted": {x}'), 'x3333': ('none',)}).install()
+    env = apel.PluginEnv(allow=True, ud={'x1111': ('echo',), 'x2222': ('raises', 'boom "quoted": {x}'), 'x3333': ('none',)}, src={'xsrc': ('raises',)}, callout={'x': ('raises',)}).install()
     tmp = tempfile.mkdtemp(prefix='c06_')
     try:
         for rnd in range(12 if thorough else 4):
@@ -180,7 +180,7 @@ def end_to_end(ck, rng, thorough):
                 big = bytes(rng.randrange(256) for _ in range(rng.choice([14000, 20000, 40000])))
                 files.append(('pel_%d_%08X_big' % (rnd, 0x50000900 + rnd), pelbuild.pel([pelbuild.UH(), pelbuild.UD(big, sub=9, comp=0x7777), pelbuild.UD(b'after the large one', sub=3)],
                                                                eid=0x50000900 + rnd, obmc=900 + rnd)))
-                files.append(('pel_%d_%08X_failing_parsers' % (rnd, 0x50000A00 + rnd), pelbuild.pel([pelbuild.UH(), pelbuild.UD(b'abc', sub=7, comp=0x2222), pelbuild.UD(b'def', sub=7, comp=0x3333),
+                files.append(('pel_%d_%08X_failing_parsers' % (rnd, 0x50000A00 + rnd), pelbuild.pel([pelbuild.UH(), pelbuild.SRC(asc=b'BD8D1234', callouts=pelbuild.callout(subs=pelbuild.fru(flags=0x22, pn=b'PROC0001'))), pelbuild.UD(b'abc', sub=7, comp=0x2222), pelbuild.UD(b'def', sub=7, comp=0x3333),
                                                                            pelbuild.UD(b'ghi', sub=7, comp=0x1111), pelbuild.ED(b'jkl', creator=b'x', sub=7, comp=0x2222)],
                                                                           eid=0x50000A00 + rnd, creator=b'x')))
             if rnd % 2 == 0:
